@@ -196,6 +196,8 @@ impl DTree {
         }
         // `subtrees` are independent, so compose them
         let mut res = DTree::balanced(&subtrees);
+        // the composition nodes created by `balanced` start without variables
+        res.init_vars();
         res.gen_cutset(&VarSet::new());
         res
     }
